@@ -33,6 +33,8 @@ def main():
                 np.random.seed(j['seed'])
                 old = sys.argv
                 sys.argv = ['gaddlemaps'] + j['argv']
+                if j.get('cwd'):
+                    os.chdir(j['cwd'])          # relative file names, as typed in a shell inside the data directory
                 try:
                     with contextlib.redirect_stdout(io.StringIO()), contextlib.redirect_stderr(io.StringIO()):
                         _cli.main()
